@@ -240,7 +240,8 @@ func (cap *commandArgParser) parseInputBlock(args redisArgs, argIndex int, input
 		} else {
 			if arg.Optional && arg.isToken() {
 				// optional value args that have tokens can be reordered
-				args = append(args, skippedOptionals...)
+				// the argument list belongs to the shared command definition: extend a copy
+				args = append(append(make(redisArgs, 0, len(args)+len(skippedOptionals)), args...), skippedOptionals...)
 				skippedOptionals = redisArgs{}
 			}
 			inputsUsed += subInputsUsed
@@ -301,7 +302,8 @@ func (cap *commandArgParser) parseEachInput(args redisArgs, input ...respValue) 
 		} else {
 			if arg.Optional && arg.isToken() {
 				// optional args that have tokens can be reordered
-				args = append(args, skippedOptionals...)
+				// the argument list belongs to the shared command definition: extend a copy
+				args = append(append(make(redisArgs, 0, len(args)+len(skippedOptionals)), args...), skippedOptionals...)
 				skippedOptionals = redisArgs{}
 			}
 
